@@ -1010,6 +1010,11 @@ fn parse_json_filter(input: &[u8], output: &mut [u8]) -> Result<(usize, usize), 
             // write count
             put(output, countindex, count.to_ne_bytes().as_slice())?;
         }
+        // the section length (and with it every offset written above) is stored as u16;
+        // a tag field adds bytes before its first value, so check the final length too
+        if end - write_tags_start > u16::MAX as usize {
+            return Err(InnerError::JsonBadFilter("Filter tags are too long", inpos).into());
+        }
         // write length of tags section
         put(
             output,
